@@ -55,7 +55,7 @@ PROPS = {
         "honestly or with 1-2 deviations (foreign client, replay, wrong/missing redirect_uri or verifier, wrong/no secret). non-trivial = at least one honest redemption "
         "succeeded and one adversarial redemption was attempted; distinct = distinct step history",
         {"runs": 250, "wall": 60}, {"runs": 40000, "wall": 900},
-        {"quick": {"_runs": 1500, "honest-redeem-success": 1000, "adversarial-redeem": 5000, "code-issued": 3000, "concurrent-pairs": 3000},
+        {"quick": {"_runs": 1500, "honest-redeem-success": 1000, "adversarial-redeem": 5000, "code-issued": 3000, "concurrent-pairs": 3000, "premature-callbacks": 2000, "authorization-with-id-token-hint": 1000},
          "thorough": {"_runs": 50000, "honest-redeem-success": 50000}},
         "Seeded exploration of interleaved multi-client histories; every 2xx token response is checked against the ledger of issued codes (client, redirect URI, PKCE, single use, token binding).",
         "DESIGN.md section 4 C04"),
@@ -65,7 +65,7 @@ PROPS = {
         "one evaluation = one (configuration seed, flow, router): pilot + one simulated world per (k-th storage call of the target request) x (error | context-timeout | torn out-parameter). "
         "distinct non-trivial case = distinct (router, flow, k, fault kind, storage method) in which the fault actually fired inside the target request",
         {"runs": 16, "wall": 90}, {"runs": 2500, "wall": 1200},
-        {"quick": {"_runs": 200, "error": 800, "timeout": 800, "torn": 30, "_distinct": 400, "warm-up-jwt-verified": 200, "target-warm-run": 80},
+        {"quick": {"_runs": 200, "error": 800, "timeout": 800, "torn": 30, "canceled": 800, "_distinct": 400, "warm-up-jwt-verified": 200, "target-warm-run": 80},
          "thorough": {"_runs": 20000, "error": 50000, "torn": 2000}},
         "Fault enumeration: every storage-call position of every scripted flow on both routers is failed once per fault kind (complete in k for the flows and configurations run); the response is checked for an error answer and for the absence of codes, tokens, claims and active:true.",
         "DESIGN.md section 4 C10", level="fault_enumeration",
@@ -77,7 +77,7 @@ PROPS = {
         "one evaluation = one seeded world (router, provider flags, storage capabilities, 5 client registrations with random grant sets) running 40-80 actor steps; each step picks endpoint x grant x client x credential presentation "
         "(right, wrong secret, secret by the other method, id only, none, assertion signed by foreign/other client's key, expired, wrong aud, sub!=iss, future iat). non-trivial = at least one success was checked; distinct = distinct step history",
         {"runs": 40, "wall": 90}, {"runs": 8000, "wall": 1200},
-        {"quick": {"_runs": 400, "refresh-success": 300, "introspect-active": 200, "other-grant-success": 150, "device-code-issued": 200},
+        {"quick": {"_runs": 400, "refresh-success": 300, "introspect-active": 200, "other-grant-success": 150, "device-code-issued": 200, "secret-check-fails": 300},
          "thorough": {"_runs": 20000}},
         "Seeded exploration; one-directional oracle: every token issued, active:true, effective revocation or device code implies the reference matrix admits the presented credentials and the grant is registered and enabled; refusals must be OAuth error documents.",
         "DESIGN.md section 4 C05 and Appendix C"),
@@ -98,7 +98,7 @@ PROPS = {
         "non-trivial = a token was honoured and a revocation or logout took effect; distinct = distinct step history",
         {"runs": 40, "wall": 90}, {"runs": 8000, "wall": 1200},
         {"quick": {"_runs": 400, "userinfo-200": 500, "introspect-active": 150, "introspect-inactive": 500, "revocation-effective": 300, "garbage-revocation": 100, "foreign-revocation-attempt": 50, "logout": 300, "race-groups": 1500, "race-use-ok": 600, "race-kill-ok": 1500, "race-use-overlapping-kill": 300,
-                   "race-linearizability-checked": 1200, "subject-with-colon": 100},
+                   "race-linearizability-checked": 1200, "subject-with-colon": 100, "exchange-success": 150, "exchange-with-actor-success": 50},
          "thorough": {"_runs": 20000}},
         "Seeded exploration; userinfo 200 / active:true imply the token is live in the reference model (and the caller authenticated and in the audience); inactive answers are exactly {active:false}; owner revocation and logout kill the tokens; foreign revocation is refused; garbage revocation answers 200.",
         "DESIGN.md section 4 C08"),
@@ -141,7 +141,7 @@ PROPS = {
         "one evaluation = one seeded world (router, 4 random client registrations: application type x dev mode x auth method x response types x 1-4 registered URIs x opted-in or ignored globs) running 40-80 steps: authorize with a redirect_uri "
         "drawn from 26 mutation kinds of a registered URI, crossed with response type/mode, other broken parameters and storage faults; callbacks for done/not-done/unknown requests. non-trivial = a redirect to a client and an error page both occurred",
         {"runs": 400, "wall": 60}, {"runs": 150000, "wall": 1200},
-        {"quick": {"_runs": 5000, "redirect-to-client": 20000, "to-login": 5000, "error-page": 100000, "error": 4000}, "thorough": {"_runs": 500000}},
+        {"quick": {"_runs": 5000, "redirect-to-client": 20000, "to-login": 5000, "error-page": 100000, "error": 4000, "concurrent-callback-pairs": 800}, "thorough": {"_runs": 500000}},
         "Seeded exploration; whenever the user agent is sent anywhere but the login page (302 or form_post) the target must be the requested URI and that URI must be allowed for the client by the reference matcher; missing/unknown-client requests get an error page.",
         "DESIGN.md section 4 C03 and Appendix C"),
     "C18": flow(
@@ -159,7 +159,7 @@ PROPS = {
         "one evaluation = one seeded world (router, PKCE, cookie max-age, auth style) running 30-70 steps: start a login through rp.AuthURLHandler, deliver a callback in one of 17 variants (incl. a state that equals the cookie's only after one more decoding step), advance the clock past the cookie age. "
         "non-trivial = at least one callback led to a token request and one was refused; distinct = distinct step history",
         {"runs": 100, "wall": 60}, {"runs": 40000, "wall": 1200},
-        {"quick": {"_runs": 1500, "code-sent-to-provider": 2000, "callback-refused": 15000, "honest-login-completed": 800, "attempt-started": 15000, "concurrent-starts": 2000}, "thorough": {"_runs": 100000}},
+        {"quick": {"_runs": 1500, "code-sent-to-provider": 2000, "callback-refused": 15000, "honest-login-completed": 800, "attempt-started": 15000, "concurrent-starts": 2000, "token-endpoint-drop-resp": 300, "token-endpoint-500": 300}, "thorough": {"_runs": 100000}},
         "Seeded exploration; a token-endpoint request from the RP implies the callback's state equals the plaintext of a state cookie this RP instance signed and presented by that browser, and the verifier sent equals the pkce cookie whose S256 went into the authorization URL; refusals run the unauthorized handler and send nothing.",
         "DESIGN.md section 4 C17"),
     "C06": flow(
@@ -168,7 +168,7 @@ PROPS = {
         "one evaluation = one seeded world (router, one of 8 signing algorithms, per-client token type/skew/lifetime/assertion flag, colliding custom claims) running 25-50 steps over 7 flows plus key rotation and clock advance. "
         "non-trivial = id tokens and access tokens were both checked; distinct = distinct step history",
         {"runs": 40, "wall": 90}, {"runs": 8000, "wall": 1200},
-        {"quick": {"_runs": 400, "id-tokens-checked": 8000, "access-tokens-checked": 8000, "rotation-in-mid-request": 500, "signed-with-key-rotated-in-mid-request": 300}, "thorough": {"_runs": 20000}},
+        {"quick": {"_runs": 400, "id-tokens-checked": 8000, "access-tokens-checked": 8000, "rotation-in-mid-request": 500, "signed-with-key-rotated-in-mid-request": 300, "refresh-after-refused-wish": 200, "multi-tenant-steps": 2000}, "thorough": {"_runs": 20000}},
         "Seeded exploration with exact-time oracles (the simulated clock is frozen during a request): signing key, rp.VerifyTokens against the published JWKS over simnet, iss/aud/azp/sub/nonce/auth_time/amr, iat and exp equalities, at_hash/c_hash, user claims only for granted scopes, opaque tokens decrypt only with the provider key, expires_in/scope equal the stored values.",
         "DESIGN.md section 4 C06"),
     "C14": flow(
@@ -194,7 +194,7 @@ PROPS = {
         "one evaluation = one seeded provider configuration: discovery per issuer host, probe of each advertised endpoint, 7 grant-type probes, a complete code flow with S256 (wrong verifier must fail) using only advertised endpoints, a signed request object when advertised, "
         "interleaved discovery for two hosts with host-derived issuers, a 14-row issuer-validation table and 5 hostile discovery documents. Apart from the host interleaving this is a configuration sweep (said plainly). distinct = distinct configuration",
         {"runs": 40, "wall": 90}, {"runs": 20000, "wall": 1200},
-        {"quick": {"_runs": 400, "discovery-fetched": 500, "grant-probes": 3000, "endpoint-probes": 3000, "flows-completed": 500, "issuer-table-rows": 5000, "hostile-documents": 2000, "interleaved-discoveries": 500, "request-object-probes": 100, "multi-tenant-worlds": 100, "request-object-history-probes": 100},
+        {"quick": {"_runs": 400, "discovery-fetched": 500, "grant-probes": 3000, "endpoint-probes": 3000, "flows-completed": 500, "issuer-table-rows": 5000, "hostile-documents": 2000, "interleaved-discoveries": 500, "request-object-probes": 100, "multi-tenant-worlds": 100, "request-object-history-probes": 100, "sibling-provider-groups": 300},
          "thorough": {"_runs": 50000}},
         "Seeded exploration of configurations; the document's issuer equals the iss of issued tokens, advertised endpoints are issuer-relative (or the configured absolute URL) and served, grant types are advertised iff not answered unsupported_grant_type, advertised S256 and request objects are honoured, bad issuers are rejected at construction, foreign-issuer documents are rejected by client.Discover.",
         "DESIGN.md section 4 C19"),
@@ -205,26 +205,26 @@ PROPS = {
         "(strip, alg none, 18 HMAC-with-public-key encodings, re-sign, kid games, payload edits, truncation, segment counts, alg outside the allow-list, wrong key type, JSON general/flattened serialisation incl. smuggled payloads, embedded jwk). "
         "Epilogue (a history): the provider rotates and retires its key; the same long-lived verifiers must believe the new key's tokens and, having fetched the new set, reject the retired key's. distinct non-trivial = distinct (surface, operator, algorithm, key-set shape) delivered",
         {"runs": 30, "wall": 90}, {"runs": 6000, "wall": 1200},
-        {"quick": {"_runs": 300, "genuine-accepted": 1000, "tampered-rejected": 40000, "hmac": 10000, "json": 4000, "kidless-probes": 20, "_distinct": 3000, "rotation-epilogues": 150, "retired": 400, "second-client-key-used": 250}, "thorough": {"_runs": 20000}},
+        {"quick": {"_runs": 300, "genuine-accepted": 1000, "tampered-rejected": 40000, "hmac": 10000, "json": 4000, "kidless-probes": 20, "_distinct": 3000, "rotation-epilogues": 150, "retired": 400, "second-client-key-used": 250, "kidless-history-probes": 20}, "thorough": {"_runs": 20000}},
         "Fault enumeration over the stated operator catalogue (complete per world): only the unmodified token (and a kid-less re-signature with exactly one candidate key) may be believed; the claims handed back are those of the signed payload; two fitting keys and no kid must be refused.",
         "DESIGN.md section 4 C02", level="fault_enumeration",
         level_note="Trusted: go-jose's primitives. The catalogue is the manipulation space; no schedule dimension."),
     "C01": flow(
         "W-time",
-        "deterministic simulation of the clock: tokens minted at t0 are verified by the real rp verifier at t0+delta with delta placed on, one second and three seconds around every time boundary; executable reference predicate with a stated rounding band",
+        "deterministic simulation of the clock: tokens minted at t0 are verified by the real rp verifier at t0+delta with delta placed on, one second and three seconds around every time boundary; executable reference predicate with a stated rounding band; in one world of three the keys come from the real remote key set against a simulated JWKS endpoint with key renames and one-request outages",
         "one evaluation = one seeded world (algorithm, key) x 100-200 verifications: verifier configuration (offset, max iat age, max auth age, nonce, acr) and claims (iss, sub, aud, azp, exp, iat, auth_time, nonce, acr, at_hash, wrong key) drawn per case, the simulated clock advanced to the instant of verification. "
         "The time axis is decided by the simulator; the claim dimensions are seeded generation. non-trivial = acceptances, rejections and boundary placements all occurred",
         {"runs": 20, "wall": 90}, {"runs": 6000, "wall": 1200},
-        {"quick": {"_runs": 300, "accepted": 5000, "rejected": 20000, "on-a-time-boundary": 5000}, "thorough": {"_runs": 20000}},
+        {"quick": {"_runs": 300, "accepted": 5000, "rejected": 20000, "on-a-time-boundary": 5000, "remote-key-set-worlds": 60, "rejected-while-jwks-endpoint-was-down": 20}, "thorough": {"_runs": 20000}},
         "Seeded exploration; accept implies every conjunct of OIDC Core 3.1.3.7 holds at the simulated instant, every conjunct holding with more than 2 s margin implies acceptance with unchanged claims; inside the band either answer is admissible.",
         "DESIGN.md section 4 C01"),
     "C20": dict(flow(
         "W-race",
         "deterministic simulation for the isolation half (invariants on package defaults and caller objects after every step of seeded construction/usage programs) plus seeded concurrent mixes on shared instances under the Go race detector (runtime-scheduled goroutines; happens-before analysis is the oracle)",
         "one evaluation = one seeded isolation program of 25-45 steps (construct providers with custom/default endpoints, relying parties, resource servers; EndSession, RevokeToken, Userinfo, Discover, device polling) with the invariants checked after every step, "
-        "plus seven seeded goroutine mixes (3-8 goroutines from a barrier, 4 processors) on one provider, one relying party (functions and HTTP handlers), one resource server + key set, concurrent construction (endpoints, issuer strategies) and error answers while the storage returns one reused error value, all in a -race build. distinct = distinct isolation program",
+        "plus eight seeded goroutine mixes (3-8 goroutines from a barrier, 4 processors) on one provider, one relying party (functions and HTTP handlers), one resource server + key set, concurrent construction (endpoints, issuer strategies) error answers while the storage returns one reused error value, and callers of one remote key set that give up while a slow download is outstanding, all in a -race build. distinct = distinct isolation program",
         {"runs": 12, "wall": 120}, {"runs": 3000, "wall": 1500},
-        {"quick": {"_runs": 150, "isolation-programs": 150, "race-mixes": 1000, "scheduled-concurrent-logins": 200, "sentinel-error-requests": 200, "scheduled-concurrent-reads": 200}, "thorough": {"_runs": 10000}},
+        {"quick": {"_runs": 150, "isolation-programs": 150, "race-mixes": 1300, "scheduled-concurrent-logins": 200, "sentinel-error-requests": 200, "scheduled-concurrent-reads": 200}, "thorough": {"_runs": 10000}},
         "Isolation: deterministic and replayable. Races: the seed fixes the program, the interleaving is the Go runtime's; a report is a happens-before violation found by the race detector, replayed by re-running the seed under -race (in practice stable, in principle probabilistic).",
         "DESIGN.md section 4 C20",
         level_note="Trusted: the Go race detector. The race half does not control the schedule (the simulator's own channels would create the happens-before edges that hide races); stated in DESIGN.md."),
